@@ -99,7 +99,6 @@ class InferenceState:
         self.module_cache = imports.ModuleCache()  # does the job of `sys.modules`.
         self.stub_module_cache = {}  # Dict[Tuple[str, ...], Optional[ModuleValue]]
         self.compiled_cache = {}  # see `inference.compiled.create()`
-        self.inferred_element_counts = {}
         self.mixed_cache = {}  # see `inference.compiled.mixed._create()`
         self.analysis = []
         self.dynamic_params_depth = 0
@@ -156,6 +155,10 @@ class InferenceState:
     def reset_recursion_limitations(self):
         self.recursion_detector = recursion.RecursionDetector()
         self.execution_recursion_detector = recursion.ExecutionRecursionDetector(self)
+        # Also a limit: how often a tree node's context may be inferred. If it
+        # was not reset here, the answer of a query would depend on how many
+        # queries were asked before on the same inference state.
+        self.inferred_element_counts = {}
 
     def get_sys_path(self, **kwargs):
         """Convenience function"""
